@@ -1,6 +1,6 @@
 (* The translated utils.expand_time_windows and TimeWindow.__post_init__ (gen/Gen_Dates.v) are the model's. *)
 From Coq Require Import List ZArith Bool Lia.
-From MM Require Import model.Dates gen.Gen_Dates.
+From MM Require Import model.Dates gen.Gen_Dates proofs.DatesProofs.
 Import ListNotations.
 Open Scope Z_scope.
 
@@ -35,3 +35,152 @@ Qed.
 Theorem window_of_single_never_raises_in_constructor d :
   gen_timewindow_raises (days_from_civil d) (days_from_civil d) = false.
 Proof. rewrite gen_timewindow_raises_spec. apply Z.ltb_irrefl. Qed.
+
+(* ---- find_days_to_exclude.  An entry of the model and the pieces its text splits into at '-' signs, each piece
+   being what pd.Timestamp makes of it (Some day number / None = ValueError). *)
+Definition parse (d : date) : option Z := if valid_date d then Some (days_from_civil d) else None.
+Inductive pieces_of : entry -> list (option Z) -> Prop :=
+| P_single d : pieces_of (Single d) [parse d]
+| P_range a b : pieces_of (Range a b) [parse a; parse b]
+| P_malformed ps : (length ps <> 1%nat /\ length ps <> 2%nat) \/ In None ps -> pieces_of Malformed ps.
+
+Definition outcome_of (r : result (Z * Z)) : outcome :=
+  match r with Ok w => Window w | RaiseValueError => ValueErr end.
+Definition outcomes_of (r : result (list (Z * Z))) : outcomes :=
+  match r with Ok ws => Windows ws | RaiseValueError => RaisesValueError end.
+
+Lemma gen_window_of_pieces_is_model e ps : pieces_of e ps -> gen_window_of_pieces ps = outcome_of (window_of e).
+Proof.
+  intros H. destruct H as [d|a b|ps H].
+  - unfold gen_window_of_pieces, parse. cbn [length nth_error window_of]. change (Z.of_nat 1 =? 1) with true. cbv iota.
+    destruct (valid_date d); [|reflexivity].
+    rewrite gen_timewindow_raises_spec, Z.ltb_irrefl. reflexivity.
+  - unfold gen_window_of_pieces, parse. cbn [length nth_error window_of].
+    change (Z.of_nat 2 =? 1) with false. change (Z.of_nat 2 =? 2) with true. cbv iota.
+    destruct (valid_date a), (valid_date b); cbn [andb]; try reflexivity.
+    rewrite gen_timewindow_raises_spec. now destruct (days_from_civil b <? days_from_civil a).
+  - cbn [window_of outcome_of]. unfold gen_window_of_pieces.
+    destruct ps as [|p [|q [|r ps]]].
+    + reflexivity.
+    + cbn [length nth_error]. change (Z.of_nat 1 =? 1) with true. cbv iota.
+      destruct H as [[H _]|H]; [now elim H|]. destruct H as [->|[]]. reflexivity.
+    + cbn [length nth_error]. change (Z.of_nat 2 =? 1) with false. change (Z.of_nat 2 =? 2) with true. cbv iota.
+      destruct H as [[_ H]|H]; [now elim H|]. destruct H as [->|[->|[]]]; [reflexivity|]. now destruct p.
+    + replace (Z.of_nat (length (p :: q :: r :: ps)) =? 1) with false
+        by (symmetry; apply Z.eqb_neq; cbn [length]; lia).
+      replace (Z.of_nat (length (p :: q :: r :: ps)) =? 2) with false
+        by (symmetry; apply Z.eqb_neq; cbn [length]; lia).
+      reflexivity.
+Qed.
+
+Lemma fold_find_days es : forall pss acc, Forall2 pieces_of es pss ->
+  fold_left (fun acc x =>
+    match acc with
+    | Windows days_exclude =>
+        match gen_window_of_pieces x with
+        | Window w => Windows (days_exclude ++ [w])
+        | ValueErr => RaisesValueError
+        | IndexErr => RaisesIndexError
+        end
+    | _ => acc
+    end) pss (Windows acc) =
+  match windows_of es with Ok ws => Windows (acc ++ ws) | RaiseValueError => RaisesValueError end.
+Proof.
+  induction es as [|e es IH]; intros pss acc H; inversion H as [|e' ps es' pss' Hp Hr]; subst; cbn [fold_left windows_of].
+  - now rewrite app_nil_r.
+  - rewrite (gen_window_of_pieces_is_model _ _ Hp). destruct (window_of e) as [w|]; cbn [outcome_of].
+    + rewrite (IH _ _ Hr). destruct (windows_of es) as [ws|]; [|reflexivity]. now rewrite <- app_assoc.
+    + clear. induction pss' as [|x l IHl]; [reflexivity|exact IHl].
+Qed.
+
+Theorem gen_find_days_is_model es pss : Forall2 pieces_of es pss ->
+  gen_find_days_to_exclude pss = outcomes_of (windows_of es).
+Proof. intros H. unfold gen_find_days_to_exclude. rewrite (fold_find_days es pss [] H). reflexivity. Qed.
+
+(* the whole pipeline find_days_to_exclude + expand_time_windows on the translated functions *)
+Definition gen_days_to_exclude (pss : list (list (option Z))) : result (list Z) :=
+  match gen_find_days_to_exclude pss with
+  | Windows ws => Ok (gen_expand_time_windows ws)
+  | _ => RaiseValueError
+  end.
+Theorem gen_days_to_exclude_is_model es pss : Forall2 pieces_of es pss -> gen_days_to_exclude pss = days_to_exclude es.
+Proof.
+  intros H. unfold gen_days_to_exclude, days_to_exclude. rewrite (gen_find_days_is_model _ _ H).
+  destruct (windows_of es) as [ws|]; cbn [outcomes_of]; [|reflexivity]. now rewrite gen_expand_is_model.
+Qed.
+(* tmp[i] is never read outside the list: no IndexError on any list of pieces (not only those of well-formed entries) *)
+Theorem gen_find_days_never_index_error pss : gen_find_days_to_exclude pss <> RaisesIndexError.
+Proof.
+  unfold gen_find_days_to_exclude.
+  assert (G : forall acc, acc <> RaisesIndexError ->
+    fold_left (fun acc x =>
+      match acc with
+      | Windows days_exclude =>
+          match gen_window_of_pieces x with
+          | Window w => Windows (days_exclude ++ [w])
+          | ValueErr => RaisesValueError
+          | IndexErr => RaisesIndexError
+          end
+      | _ => acc
+      end) pss acc <> RaisesIndexError).
+  { induction pss as [|ps pss IH]; intros acc Hacc; cbn [fold_left]; [exact Hacc|]. apply IH.
+    destruct acc as [l| |]; try assumption.
+    assert (Hw : gen_window_of_pieces ps <> IndexErr).
+    { unfold gen_window_of_pieces. destruct ps as [|p [|q [|r ps]]]; cbn [length nth_error].
+      - discriminate.
+      - change (Z.of_nat 1 =? 1) with true. cbv iota. destruct p; [destruct (gen_timewindow_raises _ _)|]; discriminate.
+      - change (Z.of_nat 2 =? 1) with false. change (Z.of_nat 2 =? 2) with true. cbv iota.
+        destruct p, q; try discriminate. destruct (gen_timewindow_raises _ _); discriminate.
+      - replace (Z.of_nat (S (S (S (length ps)))) =? 1) with false by (symmetry; apply Z.eqb_neq; lia).
+        replace (Z.of_nat (S (S (S (length ps)))) =? 2) with false by (symmetry; apply Z.eqb_neq; lia). discriminate. }
+    destruct (gen_window_of_pieces ps); try discriminate. now elim Hw. }
+  apply G. discriminate.
+Qed.
+
+(* ---- the pipeline, stated on entries: what an accepted list expands to *)
+Definition covers (e : entry) (d : Z) : Prop :=
+  match e with
+  | Single x => d = days_from_civil x
+  | Range a b => days_from_civil a <= d <= days_from_civil b
+  | Malformed => False
+  end.
+Lemma windows_of_In es : forall ws, windows_of es = Ok ws ->
+  forall w, In w ws <-> exists e, In e es /\ window_of e = Ok w.
+Proof.
+  induction es as [|e es IH]; cbn [windows_of]; intros ws H w.
+  - injection H as <-. split; [intros []|intros (e & [] & _)].
+  - destruct (window_of e) as [w0|] eqn:Hw; [|discriminate].
+    destruct (windows_of es) as [ws0|]; [|discriminate]. injection H as <-. cbn [In]. rewrite (IH ws0 eq_refl w). split.
+    + intros [<-|(e' & Hin & He')]; [exists e; auto|exists e'; auto].
+    + intros (e' & [<-|Hin] & He'); [left; congruence|right; exists e'; auto].
+Qed.
+Lemma window_covers e w : window_of e = Ok w -> forall d, fst w <= d <= snd w <-> covers e d.
+Proof.
+  destruct e as [x|a b|]; cbn [window_of covers]; intros H d.
+  - destruct (valid_date x); [|discriminate]. injection H as <-. cbn [fst snd]. lia.
+  - destruct (valid_date a && valid_date b); [|discriminate].
+    destruct (days_from_civil b <? days_from_civil a); [discriminate|]. injection H as <-. cbn [fst snd]. lia.
+  - discriminate.
+Qed.
+Theorem days_to_exclude_exact es ds : days_to_exclude es = Ok ds ->
+  NoDup ds /\ forall d, In d ds <-> exists e, In e es /\ covers e d.
+Proof.
+  unfold days_to_exclude. destruct (windows_of es) as [ws|] eqn:Hws; [|discriminate]. intros H. injection H as <-.
+  split; [apply expand_NoDup|]. intros d. rewrite expand_spec. split.
+  - intros (w & Hin & Hd). apply (windows_of_In es ws Hws) in Hin. destruct Hin as (e & He & Hw).
+    exists e. split; [exact He|]. now apply (window_covers e w Hw).
+  - intros (e & He & Hc). destruct (window_of e) as [w|] eqn:Hw.
+    + exists w. split; [apply (windows_of_In es ws Hws); exists e; auto|]. now apply (window_covers e w Hw).
+    + exfalso. apply in_split in He. destruct He as (l1 & l2 & ->).
+      pose proof (one_bad_entry_rejects_all l1 e l2 Hw) as Hbad. unfold days_to_exclude in Hbad. now rewrite Hws in Hbad.
+Qed.
+Theorem days_to_exclude_accepts_iff es : (exists ds, days_to_exclude es = Ok ds) <-> forall e, In e es -> window_of e <> RaiseValueError.
+Proof.
+  split.
+  - intros (ds & H) e He Hw. apply in_split in He. destruct He as (l1 & l2 & ->).
+    rewrite (one_bad_entry_rejects_all l1 e l2 Hw) in H. discriminate.
+  - intros H. unfold days_to_exclude. induction es as [|e es IH]; cbn [windows_of]; [eexists; reflexivity|].
+    destruct (window_of e) as [w|] eqn:Hw; [|now elim (H e (or_introl eq_refl))].
+    destruct IH as (ds & Hds); [intros e' He'; apply H; now right|].
+    destruct (windows_of es) as [ws|]; [eexists; reflexivity|discriminate].
+Qed.
